@@ -124,8 +124,15 @@ Pick(S0) ==
 Bounded(S0) == \A c \in Chains : S0.ch[c].h <= MaxH
 
 IsHandshakeMsg(a) == a.a \in ConnMsgs \cup ChanMsgs
+\* after a successful freeze: the steps that would otherwise succeed on that chain are attempted through the frozen client
+FrozenProbes(S1, c) ==
+    LET loc == LocalActs(S1, c, TRUE)
+        rel == RelayActs(S1, c, ProvAt(S1, c, Latest(S1, c)), Latest(S1, c), TRUE) IN
+    (IF loc # {} THEN <<RandomElement(loc)>> ELSE <<>>) \o (IF rel # {} THEN <<RandomElement(rel)>> ELSE <<>>)
+    \o (IF S1.ch[Cp(c)].h >= 1 THEN <<Upd(c, S1.ch[Cp(c)].h)>> ELSE <<>>)
 Follow(S0, a, r) == IF r.res = "ok" /\ IsHandshakeMsg(a) /\ "fu" \notin DOMAIN a
                     THEN <<[x \in (DOMAIN a) \cup {"fu"} |-> IF x = "fu" THEN TRUE ELSE a[x]]>>
+                    ELSE IF r.res = "ok" /\ a.a = "Freeze" THEN FrozenProbes(r.S, a.c)
                     ELSE <<>>
 
 \* the set of plans offered for this draw (empty: take a single action)
